@@ -77,6 +77,22 @@ std::string fs(const Args& a) {
 				int rc = saveFile(nif, f[1], raw, trace, full);
 				st = rc == 0 ? "ok" : "save-rc" + std::to_string(rc);
 			}
+			else if (f[0] == "staleindex") {
+				// staleindex:<n> : the name of up to <n> nodes other than the root becomes the empty string while its reference keeps
+				// an index beyond the string table — what a node cloned from a model with a larger table and then renamed to ""
+				// carries, or a reference a damaged file stored
+				NiHeader& hdr = nif.GetHeader();
+				int n = std::stoi(f[1]), done = 0;
+				for (uint32_t i = 0; i < hdr.GetNumBlocks() && done < n; ++i) {
+					auto node = hdr.GetBlock<NiNode>(i);
+					if (node && node != nif.GetRootNode()) {
+						node->name.get().clear();
+						node->name.SetIndex(hdr.GetStringCount() + 5 + static_cast<uint32_t>(done));
+						++done;
+					}
+				}
+				st = "ok";
+			}
 			else if (f[0] == "stripshape") {
 				// stripshape:<nstrips> : a NiTriStrips shape below the root whose NiTriStripsData holds <nstrips> strips of 3..5 points
 				// (no sample file carries strip geometry)
@@ -98,12 +114,15 @@ std::string fs(const Args& a) {
 				}
 				data->Create(hdr.GetVersion(), &v, nullptr, nullptr, nullptr);
 				data->stripsInfo.hasPoints = true;
-				uint32_t did = hdr.AddBlock(std::move(data));
-				auto shape = std::make_unique<NiTriStrips>();
+				// the shape precedes its data block, as in files written by the sorter (a prefix that ends inside the data block
+				// still holds the complete shape)
+				auto shapeU = std::make_unique<NiTriStrips>();
+				NiTriStrips* shape = shapeU.get();
 				shape->name.get() = "Strips";
+				uint32_t sid = hdr.AddBlock(std::move(shapeU));
+				uint32_t did = hdr.AddBlock(std::move(data));
 				shape->DataRef()->index = did;
 				shape->SetGeomData(hdr.GetBlock<NiGeometryData>(did));
-				uint32_t sid = hdr.AddBlock(std::move(shape));
 				if (auto root = nif.GetRootNode())
 					root->childRefs.AddBlockRef(sid);
 				st = "ok";
